@@ -10,6 +10,8 @@ own Logger logs the energy every step (pass A, non-intrusive).  In pass B the en
 queried through the public API after every trial (intrusive) and compared with the oracle.
 Calculators: harness calculators in three caching styles (plain ASE cache, result-tagging,
 per-atom internal state) plus ASE's EMT and LennardJones.
+Every other simulation carries constraints (FixAtoms on a framework or the first atom,
+FixCom): the calculator's own copy of the atoms carries copies of them too.
 """
 from __future__ import annotations
 
